@@ -390,7 +390,7 @@ func expNotes(m string) string {
 	return strings.Join(o, " ")
 }
 
-var reStatus = regexp.MustCompile(`^\* STATUS "?(.*?)"? \((.*)\)$`)
+var reStatus = regexp.MustCompile(`^\* STATUS (.*) \(([^()]*)\)$`)
 
 // RealDump observes every mailbox over IMAP in a second session: LIST, STATUS, EXAMINE + UID FETCH 1:*.
 func (h *H) RealDump() []BoxD {
@@ -399,9 +399,8 @@ func (h *H) RealDump() []BoxD {
 	var names []string
 	for _, l := range ls.Untagged {
 		if strings.HasPrefix(l, "* LIST") {
-			i := strings.Index(l, `"/" `)
-			if i >= 0 {
-				names = append(names, strings.Trim(strings.TrimSpace(l[i+4:]), `"`))
+			if strings.Contains(l, `"/" `) {
+				names = append(names, world.ListName(l))
 			}
 		}
 	}
